@@ -369,6 +369,8 @@ node_index(latnode_t **nodes, int n, latnode_t *x)
 }
 
 static void emit_lattice_fields(lattice_t *dag, lattice_t *dag2, int with_scores);
+static lattice_t *bestpath_done_on; /* the lattice lattice_bestpath() last ran on: pointer, and (a freed lattice's address */
+static int bestpath_done_frames;    /* can be reused) the frame count it covered; forgotten at every decoder_start_utt  */
 
 static void
 cmd_lattice(const char *tag, int with_scores)
@@ -434,6 +436,8 @@ emit_lattice_fields(lattice_t *dag, lattice_t *dag2, int with_scores)
         /* best path and posteriors, as the N-best / confidence code computes them */
         float32 ascale = (float32)(1.0 / config_float(d->config, "ascale"));
         latlink_t *last = lattice_bestpath(dag, ascale), *l;
+        bestpath_done_on = last ? dag : NULL;
+        bestpath_done_frames = lattice_n_frames(dag);
         int32 post;
         fprintf(vt_out, ",\"hasbest\":%s,\"best\":", last ? "true" : "false");
         if (last == NULL)
@@ -532,8 +536,29 @@ cmd_nbest(const char *tag, int max, int with_after)
         fprintf(vt_out, ",\"after\":{\"scored\":%d", scored[1]);
         if (dag == NULL)
             fprintf(vt_out, ",\"null\":true");
-        else
+        else {
+            /* where the best path of this very lattice was computed before the walk, the posteriors are asked for
+             * first, with nothing in between (best path -> N-best -> posteriors) */
+            if (dag == bestpath_done_on && lattice_n_frames(dag) == bestpath_done_frames) {
+                float32 ascale = (float32)(1.0 / config_float(d->config, "ascale"));
+                int32 post = lattice_posterior(dag, ascale), bwd = logmath_get_zero(dag->lmath), maxp = -2000000000;
+                latlink_iter_t *li;
+                latnode_iter_t *ni;
+                for (li = ps_latnode_exits(dag->start); li; li = ps_latlink_iter_next(li)) {
+                    latlink_t *lk = ps_latlink_iter_link(li);
+                    bwd = logmath_add(dag->lmath, bwd, lk->beta + (int32)((lk->ascr << 10) * ascale));
+                }
+                for (ni = ps_latnode_iter(dag); ni; ni = ps_latnode_iter_next(ni))
+                    for (li = ps_latnode_exits(ps_latnode_iter_node(ni)); li; li = ps_latlink_iter_next(li)) {
+                        int32 p = ps_latlink_prob(dag, ps_latlink_iter_link(li), NULL);
+                        if (p > maxp)
+                            maxp = p;
+                    }
+                fprintf(vt_out, ",\"postfirst\":{\"best\":%d,\"norm\":%d,\"bwd\":%d,\"maxlink\":%d}", (int)post, (int)dag->norm,
+                        (int)bwd, (int)maxp);
+            }
             emit_lattice_fields(dag, decoder_lattice(d), 1);
+        }
         fprintf(vt_out, "}");
     }
     fprintf(vt_out, "}\n");
@@ -1306,7 +1331,15 @@ main(int argc, char *argv[])
             fprintf(vt_out, "{\"e\":\"Grammar\",\"kind\":\"text\",\"ret\":%d,\"start\":0,\"arcs\":[", ret);
             copy = strdup(text);
             for (tok = strtok_r(copy, " \t\n\r", &save); tok; tok = strtok_r(NULL, " \t\n\r", &save)) {
+                size_t tl = strlen(tok);
                 fprintf(vt_out, "%s[%d,%d,", n ? "," : "", n, n + 1);
+                /* results carry base forms: a numbered pronunciation variant named by the text labels its arc with
+                 * the base spelling */
+                if (tl > 3 && tok[tl - 1] == ')') {
+                    char *op = strrchr(tok, '(');
+                    if (op && op > tok && strspn(op + 1, "0123456789") == (size_t)(tok + tl - 1 - (op + 1)))
+                        *op = '\0';
+                }
                 emit_word(tok);
                 fprintf(vt_out, ",0]");
                 ++n;
@@ -1482,6 +1515,7 @@ main(int argc, char *argv[])
         } else if (!strcmp(cmd, "start")) {
             int r;
             reset_utt_counters();
+            bestpath_done_on = NULL;
             fprintf(vt_out, "{\"e\":\"Start\",\"inst\":%d,\"cmn\":", cur);
             vt_str(vt_out, d ? decoder_get_cmn(d, 0) : "");
             r = decoder_start_utt(d);
